@@ -375,3 +375,7 @@ mod test {
         assert_eq!(buffer.orig_slice(2..3), "");
     }
 }
+
+// verification hook: harness text lives outside the repository (see MANIFEST.hooks)
+#[cfg(any(kani, sudachi_verif))]
+include!(concat!(env!("SUDACHI_VERIF_DIR"), "/input_text__buffer__edit.rs"));
